@@ -7,7 +7,7 @@ use cadence::prelude::*;
 use cadence::{Metric, MetricBuilder, MetricError, SpyMetricSink, StatsdClient};
 
 const STRS: [&str; 8] = ["", "a", "ab", "svc.", "x..", "my.app", "k-1", "é"];
-const RATES: [f64; 4] = [0.5, 1.0, 0.001, 1e-7];
+const RATES: [f64; 7] = [0.5, 1.0, 0.001, 1e-7, 0.0, 5e-324, 1e-310];
 const TSS: [u64; 3] = [0, 1700000000, u64::MAX];
 
 #[derive(Clone, Debug)]
@@ -158,6 +158,10 @@ pub fn check(c: &Case) -> Vec<(String, String)> {
     match res {
         Ok(got) => {
             if got != line { fails.push(("C01".to_string(), format!("returned metric text {:?}, expected {:?}", got, line))); }
+            // C02: the sampling rate supplied is on the wire, bit-identical after parsing back
+            let rate_of = |l: &str| l.split('|').skip(1).find_map(|sec| sec.strip_prefix('@').map(|x| x.parse::<f64>().ok().map(|v| v.to_bits())));
+            let want_rate = c.r.map(|i| Some(RATES[i % RATES.len()].to_bits()));
+            if rate_of(&got) != want_rate { fails.push(("C02".to_string(), format!("sampling rate section of {:?} parses back to {:?}, supplied {:?}", got, rate_of(&got), want_rate))); }
             if sent != vec![line.clone()] { fails.push(("C01".to_string(), format!("sink received {:?}, expected exactly [{:?}]", sent, line))); }
             for l in sent.iter().chain(std::iter::once(&got)) {
                 if sections(l) != want {
@@ -188,7 +192,7 @@ pub fn search(prop: &str, seed: u64, budget: u64) -> Option<(String, Vec<(String
         let o = |rng: &mut Rng, m: u64| if rng.below(2) == 0 { None } else { Some(rng.below(m) as usize) };
         let c = Case { p: rng.below(n) as usize, k: rng.below(n) as usize, kind: rng.below(7) as usize, v: rng.below(6) as usize,
             dt: (0..ndt).map(|_| tag(&mut rng)).collect(), t: (0..nt).map(|_| tag(&mut rng)).collect(),
-            dc: o(&mut rng, n), c: o(&mut rng, n), r: o(&mut rng, 4), ts: o(&mut rng, 3) };
+            dc: o(&mut rng, n), c: o(&mut rng, n), r: o(&mut rng, RATES.len() as u64), ts: o(&mut rng, 3) };
         let fails = no_panic("a metric call", || check(&c));
         if fails.iter().any(|(p, _)| p == prop) {
             return Some((c.to_string(), fails.into_iter().filter(|(p, _)| p == prop).collect()));
